@@ -52,14 +52,14 @@ Proof.
     rewrite Hx in Hy. inversion Hy; subst y. apply Z.eqb_neq in E. congruence.
 Qed.
 
-Lemma lookup_hit sh k0 j sh' k :
+Lemma lookup_hit sh k0 j sh' :
   idx_ok sh -> idx_get (idx sh) k0 = Some j -> hit_entry sh j = Some sh' ->
   exists e, lookup sh k0 = Some e /\
-    lookup sh' k = if k =? k0 then Some (set_vis (set_pin e (epin e + 1)) true) else lookup sh k.
+    forall k, lookup sh' k = if k =? k0 then Some (set_vis (set_pin e (epin e + 1)) true) else lookup sh k.
 Proof.
   intros Hi Hj Hh. unfold hit_entry in Hh. destruct (nth_error (ents sh) j) as [e|] eqn:He; [|discriminate].
   inversion Hh; subst sh'. exists e. split; [unfold lookup; rewrite Hj; assumption|].
-  eapply lookup_set_entry; eauto.
+  intros k. eapply lookup_set_entry; eauto.
 Qed.
 
 Lemma lookup_insert sh e k :
